@@ -6,7 +6,8 @@ record does not change when an `if` is inverted and its branches are swapped (`i
 flipped or the boundary moved while the branches stay.  rules/guards_frozen.json holds the records of the pinned tree
 (tools/freeze_guards.py); the rule compares, per function and operand pair that still exists, the leave-early
 conditions.  Branches where both or neither edge leave at once (value selection, two substantial arms, loop
-conditions) have no defined polarity and are not recorded."""
+conditions) have no defined polarity and are not recorded.  Boolean conditions that are not comparisons (a flag, a predicate call such as `is_empty()`)
+are recorded the same way: "left early when it is true / false"."""
 import json, os
 import argsel
 from lib import switch_exprs, bool_targets, norm_bool
@@ -91,6 +92,14 @@ def sites(ctx, fn):
             e, tr = norm_bool(b.pexpr_operand(t['op'], 0, frozenset(), (bb, 't')), True)
             cmp_ = _as_cmp(e)
             if cmp_ is None:
+                # a boolean that is not a comparison (a flag, a predicate call): recorded as "left early when it is true / false"
+                if e[0] not in ('call', 'field', 'param', 'upvar') or (e[0] == 'call' and e[1].split('::')[-1] in ('poll', 'next', 'branch')):
+                    continue
+                lt_, lf_ = _leaves_at_once(b, tt), _leaves_at_once(b, tf)
+                if lt_ == lf_:
+                    continue
+                val = tr if lt_ else (not tr)      # value of e on the leaving edge
+                out.setdefault(canon(e, 0, 1) + ' @@ <bool>', set()).add('true' if val else 'false')
                 continue
             op_, lhs_, rhs_ = cmp_
             lt_, lf_ = _leaves_at_once(b, tt), _leaves_at_once(b, tf)
@@ -123,7 +132,8 @@ def collect(ctx):
     return out
 
 
-FLOORS = {'C01': 30, 'C02': 32, 'C03': 37, 'C04': 30, 'C05': 14, 'C06': 12, 'C07': 1, 'C08': 1, 'C09': 13, 'C10': 5, 'C11': 0, 'C12': 30, 'C13': 149, 'C14': 24, 'C15': 4, 'C16': 46, 'C17': 20, 'C18': 9, 'C19': 8, 'C20': 17}   # ~70 % of the guards counted on the pinned tree
+FLOORS = {'C01': 53, 'C02': 52, 'C03': 74, 'C04': 48, 'C05': 36, 'C06': 44, 'C07': 9, 'C08': 8, 'C09': 49, 'C10': 31, 'C11': 1, 'C12': 47, 'C13': 194, 'C14': 50, 'C15': 22,
+          'C16': 114, 'C17': 42, 'C18': 21, 'C19': 23, 'C20': 29}   # ~70 % of the guards counted on the pinned tree
 
 
 def check(ctx, rep, prop):
@@ -142,6 +152,8 @@ def check(ctx, rep, prop):
                 continue
             n += 1
             ok = cur[key] == want
+            a_, b_ = key.split(' @@ ')[0], key.split(' @@ ')[-1]
+            what = ('on `%s`' % a_) if b_ == '<bool>' else ('comparing `%s` with `%s`' % (a_, b_))
             rep.ob(rid, fn, key[:140], ok, None, None if ok else
-                   'comparing `%s` with `%s`, the function now leaves early when {%s} (pinned tree: when {%s})' % (key.split(' @@ ')[0], key.split(' @@ ')[-1], ' | '.join(cur[key]), ' | '.join(want)))
+                   '%s, the function now leaves early when {%s} (pinned tree: when {%s})' % (what, ' | '.join(cur[key]), ' | '.join(want)))
     return n
